@@ -1200,6 +1200,18 @@ int EGLPNUM_TYPENAME_ILLlib_addrow (
 	qslp = lp->O;
 	A = &qslp->A;
 
+	/* ind[] holds structural column indices; check them before anything is
+	 * modified (they are used below to index structmap) */
+	for (i = 0; i < cnt; i++)
+	{
+		if (ind[i] < 0 || ind[i] >= qslp->nstruct)
+		{
+			QSlog("EGLPNUM_TYPENAME_ILLlib_addrow called with bad column index %d", ind[i]);
+			rval = 1;
+			ILL_CLEANUP;
+		}
+	}
+
 	if (qslp->rA)
 	{															/* After an addrow call, needs to be updated */
 		EGLPNUM_TYPENAME_ILLlp_rows_clear (qslp->rA);
